@@ -9,6 +9,10 @@ Plus table clauses: generate / mutate / parse / render dispatch over the same pr
 bool before int, renderers are not memoised (equal values of different type or sign share a hash).
 generate_literal is interpreted for every requested type under size-0 / 1 / default configurations and
 scripted extreme draws (type and size of the result, no exception); mutation draws are not decided.
+Further clauses (added later): C23.parse also reads hexadecimal / octal / binary / underscored int spellings
+and interprets the write half set_literal_value over the value partition; C23.escape: no read of a string
+node's raw_value where its value is needed; a tuple written without parentheses stays a valid literal when
+mutation empties it.
 """
 
 from __future__ import annotations
